@@ -254,5 +254,6 @@ func Run(c *ev.Ctx) {
 		an = append(an, o.Name)
 	}
 	c.Sample(map[string]any{"alphabet": an})
-	c.Assume("TTL expiry is represented by the replicated session destroy it turns into; the leader's timer wheel is not explored")
+	ttlPart(c)
+	c.Assume("TTL expiry: the leader's timers are checked for existence (armed iff the TTL is a positive duration) after create, renew and leader failover, and the function a timer runs is executed by the harness; the passage of real time until a timer fires is not modelled")
 }
